@@ -283,6 +283,9 @@ def sim_getmtime(path):
         after_event(ans)
         return _real_getmtime(path)   # raises like the real one
     after_event(ans)
+    if sp.endswith(".fai"):
+        # compared with the time stamp of the (unshared, really written) reference: real time
+        return _real_getmtime(path)
     return float(ans.get("mtime", 0))
 
 
